@@ -80,11 +80,14 @@ func c03(c *Ctx) {
 		r.Fail("C03.reader-wrappers", "package", "floor", c.fn("(*joinReader).Read").Pos(), "fewer than the 4 known reader wrappers were analysed")
 	}
 	r.Rule("C03.early-bytes", "the byte stream handed to the frame reader is the peer's stream: bytes buffered by the HTTP server before the upgrade are replayed first and completely (same rule as C17.brnetconn)")
-	c.borrow(c17, map[string]string{"C17.brnetconn": "C03.early-bytes"})
+	c.borrow(c17, map[string]string{"C17.brnetconn": "C03.early-bytes", "C17.reader-stable": "C03.early-bytes"})
 	r.Rule("C03.control-frames", "control frames of every legal size between fragments are read and dispatched to their handler without touching the message state (same rules as C08.read-buffer, C08.dispatch)")
 	c.borrow(c08, map[string]string{"C08.read-buffer": "C03.control-frames", "C08.dispatch": "C03.control-frames", "C08.defaults": "C03.control-frames"})
 	c.joinTerm("C03.reader-wrappers")
 	c.joinEOF("C03.reader-wrappers")
+	r.Rule("C03.errors-final", "a failed frame read is final: the frame parser discards what it had consumed of a header, so reading on after an error (a timeout included) would continue in the middle of a frame and deliver wrong messages (same rule as C05.sticky)")
+	rd.sticky("C03.errors-final")
+	c.readerSiblings("C03.reader-wrappers")
 	r.Rule("C03.inflater-exclusive", "an inflater returned to flateReaderPool is forgotten by the wrapper in the same step (never used or returned twice), so two connections never share one decompressor")
 	r.Assume("bufio.Reader.Read returns 0 <= n <= len(p)")
 
